@@ -97,7 +97,7 @@ def generate(rng, k, tier="quick"):
         ops.append(gen_observe(rng, spec, t, heavy, tier))
     for _ in range(rng.randint(1, 6)):
         if rng.random() < 0.3:
-            ops.append({"op": "DEEPCOPY"})
+            ops.append({"op": "DEEPCOPY", "of": "returned" if (have_ret and rng.random() < 0.3) else "receiver"})
             copies.append(t)
         op, v = gen_move(rng, t, last, spec)
         ops.append(op)
@@ -130,6 +130,9 @@ def _queries():
         ("measure:area", lambda S: S.area()),
         ("measure:volume", lambda S: S.volume()),
         ("measure:volume_fn", lambda S: G.volume(S)),
+        ("acc:general_form", lambda S: tuple(S.general_form())),
+        ("acc:item0", lambda S: S[0] if type(S).__name__ == "Segment" else S.__getitem__("no")),
+        ("acc:item1", lambda S: S[1] if type(S).__name__ == "Segment" else S.__getitem__("no")),
     ]
     pair_q = [
         ("in:P_in_S", lambda S, P: P in S),
@@ -346,8 +349,8 @@ def _observe_side(ctx, step, side, obj, spec, t_obj, probes, base_measures):
             {"got": detail(x), "want": detail(f), "probe": ps, "t": X.ser(t_obj)},
         )
     # measures unchanged since step 0
-    for (qn, pi, x) in rx[:4]:
-        if qn in base_measures and not isinstance(x, Raised) and not isinstance(base_measures[qn], Raised):
+    for (qn, pi, x) in rx[:7]:
+        if qn.startswith("measure:") and qn in base_measures and not isinstance(x, Raised) and not isinstance(base_measures[qn], Raised):
             ctx.count("measure_checks")
             if not same(x, base_measures[qn]):
                 _vio(ctx, step, "I3m", spec, side, qn, None, "measure changed", {"got": detail(x), "want": detail(base_measures[qn])})
@@ -484,7 +487,8 @@ def execute(history, opts=None):
                     ctx.count("copies_diverged_observed")
                 _observe_side(ctx, step, label, co, spec, ct, probes, base)
         elif kind == "DEEPCOPY":
-            c = call(copy.deepcopy, Xo)
+            src = R if (op.get("of") == "returned" and R is not None) else Xo
+            c = call(copy.deepcopy, src)
             if isinstance(c, Raised):
                 _vio(ctx, step, "I5", spec, "copy", "deepcopy:raised", None, disc(c), {"got": detail(c)})
             else:
